@@ -43,7 +43,7 @@ def retro_screen_kwargs(rng, flavour=None):
 
 # plain fractions, fractions whose product with a plate size is tiny but positive, and fractions whose product with a
 # small size lies a hair above / below an integer
-HOLDOUT_FRACTIONS = [0.0, 1.0, 0.07, 0.1, 0.3, 0.5, 1.0 / 3.0, 0.7, 1e-10, 1e-12, 5e-324, 0.5 + 2e-10, 0.1 + 1e-11, 0.25 - 1e-12, 1.0 - 1e-12]
+HOLDOUT_FRACTIONS = [0.0, 1.0, 0.07, 0.1, 0.3, 0.5, 1.0 / 3.0, 0.7, 0.8, 0.9, 0.6, 0.55, 0.65, 0.75, 0.95, 0.2, 0.4, 1e-10, 1e-12, 5e-324, 0.5 + 2e-10, 0.1 + 1e-11, 0.25 - 1e-12, 1.0 - 1e-12]
 
 
 def as_given(rng, v):
